@@ -314,6 +314,8 @@ func (in *Interp) eval(e Expr, sc *scope, this Value) Value {
 			return NaN{}
 		case "console":
 			return &Builtin{Name: "console"}
+		case "JSON":
+			return &Builtin{Name: "JSON"}
 		}
 		c := sc.lookup(n.Name)
 		if c == nil {
@@ -547,6 +549,9 @@ func (in *Interp) member(recv Value, name string) Value {
 		if r.Name == "console" {
 			return &Builtin{Name: "console." + name}
 		}
+		if r.Name == "JSON" {
+			return &Builtin{Name: "JSON." + name}
+		}
 	}
 	return Undefined{}
 }
@@ -661,8 +666,51 @@ func (in *Interp) invoke(fd *FuncDecl, args []Value, this Value, name string) Va
 	return Undefined{}
 }
 
+// jsonText is what JSON.stringify returns in this model: the value itself, to be copied by
+// JSON.parse. Exact for plain data whose numbers are integers (the only numbers modelled);
+// class instances lose their prototype as in JavaScript.
+type jsonText struct{ v Value }
+
+func (in *Interp) jsonCopy(v Value) Value {
+	switch x := v.(type) {
+	case *Object:
+		o := &Object{Fields: map[string]Value{}}
+		for k, f := range x.Fields {
+			if _, undef := f.(Undefined); undef {
+				continue // JSON drops undefined members
+			}
+			o.Fields[k] = in.jsonCopy(f)
+		}
+		return o
+	case *Array:
+		a := &Array{}
+		for _, e := range x.Elems {
+			a.Elems = append(a.Elems, in.jsonCopy(e))
+		}
+		return a
+	case Undefined:
+		return Null{}
+	}
+	return v
+}
+
 func (in *Interp) builtin(b *Builtin, args []Value) Value {
 	switch b.Name {
+	case "JSON.stringify":
+		if len(args) == 0 {
+			return Undefined{}
+		}
+		if _, undef := args[0].(Undefined); undef {
+			return Undefined{}
+		}
+		return jsonText{args[0]}
+	case "JSON.parse":
+		if len(args) == 1 {
+			if jt, ok := args[0].(jsonText); ok {
+				return in.jsonCopy(jt.v)
+			}
+		}
+		panic(Unsupported{"JSON.parse of a text that JSON.stringify did not produce"})
 	case "Array.push":
 		a := b.Recv.(*Array)
 		a.Elems = append(a.Elems, args...)
